@@ -137,11 +137,19 @@ pub fn case(op: &Op, a: &M, la: usize, b: Option<(&M, usize)>) -> bool {
             );
         }
     }
+    // long operands: one string per row (a pretty-printed number per line would make replays huge)
+    let compact = |m: &M| -> mc::Value {
+        if m.v.len() <= 64 {
+            json!(m.rows())
+        } else {
+            json!(m.rows().iter().map(|r| format!("{:?}", r)).collect::<Vec<_>>())
+        }
+    };
     mc::describe(|| {
         json!({
             "operation": op.show(),
-            "a": a.rows(), "a_layout": if is_vec { format!("vector source {}", la) } else { LAYOUTS[la].to_string() },
-            "b": bm.map(|m| m.rows()), "b_layout": if is_vec { format!("vector source {}", lb) } else { LAYOUTS[lb].to_string() },
+            "a": compact(a), "a_layout": if is_vec { format!("vector source {}", la) } else { LAYOUTS[la].to_string() },
+            "b": bm.map(compact), "b_layout": if is_vec { format!("vector source {}", lb) } else { LAYOUTS[lb].to_string() },
             "reference_model": show_exp(&exp),
             "dense": show_out(&outs[0]), "ndarray": show_out(&outs[1]), "nalgebra": show_out(&outs[2]),
         })
